@@ -559,9 +559,22 @@ def recursion_rule(R, rid, root_name):
 
     guard_fns = set(k for k, f in P.fns.items() if constructs_guard(f))
     guard_callers = set(guard_fns)
-    for k, f in P.fns.items():
-        if any(k2 in guard_fns for c in f.calls for k2 in P.callee_keys(f, c)):
-            guard_callers.add(k)
+    in_cycle = set(k for comp in comps for k in comp)
+    # functions that pass the guard on every call: they call a guard function, possibly through non-recursive helpers
+    # (`enter_nesting()` -> `too_deep_error()`), bounded depth
+    for _ in range(3):
+        grew = False
+        for k, f in P.fns.items():
+            if k in guard_callers:
+                continue
+            for c in f.calls:
+                ks = P.callee_keys(f, c)
+                if any(k2 in guard_fns or (k2 in guard_callers and k2 not in in_cycle) for k2 in ks):
+                    guard_callers.add(k)
+                    grew = True
+                    break
+        if not grew:
+            break
     for comp in comps:
         names = sorted(P.fns[k].spath for k in comp)
         named = [n for n in names if "{closure" not in n] or names
